@@ -32,7 +32,7 @@ Flat(ss) == IF ss = <<>> THEN <<>> ELSE Head(ss) \o Flat(Tail(ss))
 
 \* st.left: pool name -> remaining limits; st.finals: <<[opener, its]>>; st.claims: Results.claims; st.n*: counters of the trace
 St0 == [left |-> <<>>, finals |-> <<>>, claims |-> <<>>, opens |-> 0, guarded |-> 0, fallbacks |-> 0, prefixes |-> 0, truncated |-> 0,
-        created |-> 0, failed |-> 0, hook |-> FALSE]
+        created |-> 0, static |-> 0, failed |-> 0, hook |-> FALSE]
 TraceInit == l = 1 /\ cfg = <<>> /\ st = St0 /\ viol = <<>> /\ ntr = 0 /\ cases = <<>> /\ done = FALSE
 
 PoolNames == {cfg'.pools[i].name : i \in DOMAIN cfg'.pools}
@@ -93,12 +93,13 @@ TRequeue ==
 \* the forms Karpenter's documented relaxation ladder tries (FeasibleLadder, weaker than the Kubernetes reading).
 TFail ==
     /\ Ev.e = "Sched" /\ Ev.kind = "fail"
-    /\ viol' = viol \o (IF Ev.eff = <<>> \/ Ev.err # "unschedulable" THEN <<>>
+    \* (not judged when the scenario lets the Solve deadline expire in the middle of the batch: such a pod simply ran out of time)
+    /\ viol' = viol \o (IF Ev.eff = <<>> \/ Ev.err # "unschedulable" \/ cfg.options.deadlineAfter > 0 THEN <<>>
                         ELSE LET e == Ev.eff[1] IN
                              IF ~Exact(e) THEN <<>>
                              ELSE Chk(~\E q \in Range(cfg.pools) : FeasibleLadder(cfg, e, q, st.left[q.name]),
                                       "G_C19_HighestWeightFeasible", "unplaced-though-a-pool-can-host-it"))
-    /\ st' = [st EXCEPT !.failed = @ + (IF Ev.eff # <<>> /\ Ev.err = "unschedulable" /\ Exact(Ev.eff[1]) THEN 1 ELSE 0)]
+    /\ st' = [st EXCEPT !.failed = @ + (IF Ev.eff # <<>> /\ Ev.err = "unschedulable" /\ cfg.options.deadlineAfter = 0 /\ Exact(Ev.eff[1]) THEN 1 ELSE 0)]
     /\ UNCHANGED <<cfg, ntr, cases>>
 
 \* ---- Sched final: the option list of a NodeClaim when scheduling is over
@@ -139,11 +140,24 @@ TCreated ==
     /\ st' = [st EXCEPT !.created = @ + 1]
     /\ UNCHANGED <<cfg, ntr, cases>>
 
+\* ---- StaticCreated: a NodeClaim the real static provisioning controller stored for a static pool (spec.replicas): (d) on EVERY one
+TStaticCreated ==
+    /\ Ev.e = "StaticCreated"
+    /\ viol' = viol \o (IF ~KnownPool(cfg, Ev.pool) THEN <<V("G_C13_Template", "labels")>>
+                        ELSE Chk(G_C13_Template(PoolByName(cfg, Ev.pool), Ev), "G_C13_Template", SigTemplate(PoolByName(cfg, Ev.pool), Ev) \o ":static"))
+    /\ st' = [st EXCEPT !.created = @ + 1, !.static = @ + 1]
+    /\ UNCHANGED <<cfg, ntr, cases>>
+\* ---- StaticPool: building NodeClaim templates must leave the NodePool object (the one handed to the reconciler and the stored one) alone
+TStaticPool ==
+    /\ Ev.e = "StaticPool"
+    /\ viol' = viol \o Chk(~Ev.objectChanged /\ ~Ev.storedChanged, "G_C13_Template", "nodepool-object-changed-by-template-building")
+    /\ UNCHANGED <<cfg, st, ntr, cases>>
+
 \* ---- End: close the trace's case record
 TEnd ==
     /\ Ev.e = "End"
     /\ cases' = Append(cases, [name |-> cfg.name, opens |-> st.opens, guarded |-> st.guarded, fallbacks |-> st.fallbacks, prefixes |-> st.prefixes,
-                               truncated |-> st.truncated, created |-> st.created, failed |-> st.failed, hook |-> st.hook])
+                               truncated |-> st.truncated, created |-> st.created, static |-> st.static, failed |-> st.failed, hook |-> st.hook])
     /\ UNCHANGED <<cfg, st, viol, ntr>>
 
 Passive == {"Hydrate", "Api", "Read", "Prov", "Tick", "CreateErr", "Panic", "Env"}
@@ -151,7 +165,7 @@ TPassive == Ev.e \in Passive /\ UNCHANGED <<cfg, st, viol, ntr, cases>>
 
 TraceNext ==
     \/ /\ l <= Len(Trace) /\ l' = l + 1 /\ UNCHANGED done
-       /\ (TCfg \/ TOpen \/ TRequeue \/ TFail \/ TFinal \/ TSchedOther \/ TResults \/ TCreated \/ TEnd \/ TPassive)
+       /\ (TCfg \/ TOpen \/ TRequeue \/ TFail \/ TFinal \/ TSchedOther \/ TResults \/ TCreated \/ TStaticCreated \/ TStaticPool \/ TEnd \/ TPassive)
     \/ /\ l = Len(Trace) + 1 /\ ~done /\ done' = TRUE
        /\ JsonSerialize(IOEnv.OUT, [viol |-> viol, consumed |-> l - 1, traces |-> ntr, cases |-> cases])
        /\ UNCHANGED <<l, cfg, st, viol, ntr, cases>>
